@@ -312,6 +312,24 @@ func genSignMsgTree(r *Rng, cfg GenCfg) *W {
 	return wTag(98, -1, wArr(-1, p, u, genPayloadTree(r), wArr(-1, sigs...)))
 }
 
+// coordBytes: mostly size random octets; sometimes the same integer written by another serialiser (leading zero
+// octets added or dropped), or a wrong length
+func coordBytes(r *Rng, size int) []byte {
+	switch r.Intn(12) {
+	case 0:
+		return append([]byte{0}, r.Bytes(size)...) // size+1 octets, a value that fits
+	case 1:
+		return append([]byte{0, 0, 0}, r.Bytes(size-1)...)
+	case 2:
+		return append([]byte{0}, r.Bytes(size-1)...) // size octets with a leading zero
+	case 3:
+		return r.Bytes(size - 1 - r.Intn(3))
+	case 4:
+		return make([]byte, size+1+r.Intn(30))
+	}
+	return r.Bytes(size)
+}
+
 // otherCurve: mostly the curve asked for; sometimes one this library does not implement, a reserved or
 // private-use identifier, or one at the edge of the integer range
 func otherCurve(r *Rng, crv int64) int64 {
@@ -330,10 +348,10 @@ func genKeyTree(r *Rng) *W {
 		size := map[int64]int{1: 32, 2: 48, 3: 66}[crv]
 		kv = append(kv, wInt(1, -1), wInt(2, -1), wInt(-1, -1), wInt(otherCurve(r, crv), -1))
 		if r.Chance(4, 5) {
-			kv = append(kv, wInt(-2, -1), wBstr(r.Bytes(size), -1), wInt(-3, -1), wBstr(r.Bytes(size), -1))
+			kv = append(kv, wInt(-2, -1), wBstr(coordBytes(r, size), -1), wInt(-3, -1), wBstr(coordBytes(r, size), -1))
 		}
 		if r.Bool() {
-			kv = append(kv, wInt(-4, -1), wBstr(r.Bytes(size), -1))
+			kv = append(kv, wInt(-4, -1), wBstr(coordBytes(r, size), -1))
 		}
 		if r.Chance(1, 2) {
 			kv = append(kv, wInt(3, -1), wInt(map[int64]int64{1: -7, 2: -35, 3: -36}[crv], -1))
